@@ -8,6 +8,7 @@ import (
 	"net/http"
 	"sort"
 	"sync"
+	"sync/atomic"
 	"testing"
 	"time"
 
@@ -30,6 +31,8 @@ type Step struct {
 	K      int    `json:"k,omitempty"`      // resolve: number of concurrent Resolve calls
 	Holder int    `json:"holder,omitempty"` // index into the list of holders created so far (mod len)
 	File   int    `json:"file,omitempty"`
+	// resolve: the cached instance's connectivity check (if it reaches the registry) is answered with an error once
+	FailCheck bool `json:"fail_check,omitempty"`
 }
 
 type Case struct {
@@ -43,6 +46,10 @@ func gen(t *rapid.T) Case {
 	c := Case{Layers: rapid.IntRange(1, 3).Draw(t, "layers"), Store: rapid.SampledFrom([]string{"memory", "db"}).Draw(t, "store")}
 	c.Cfg = fullstack.Config{Store: c.Store, FSCache: "directory", HTTPCache: "directory", LRUEntries: rapid.IntRange(1, 3).Draw(t, "lru"), MaxFds: rapid.IntRange(1, 3).Draw(t, "fds"),
 		Direct: rapid.Bool().Draw(t, "direct"), SyncAdd: true, RegChunk: rapid.SampledFrom([]int64{0, 512, 100, 64}).Draw(t, "regchunk"), TTLSec: 1, Opaque: "trusted"}
+	if rapid.IntRange(0, 2).Draw(t, "longttl") == 0 {
+		// the connectivity check of a cached layer reaches the registry after one quiet second; the layer stays cached for three
+		c.Cfg.TTLSec, c.Cfg.ValidSec = 3, 1
+	}
 	sleeps := 0
 	n := rapid.IntRange(3, 14).Draw(t, "nsteps")
 	for i := 0; i < n; i++ {
@@ -58,6 +65,12 @@ func gen(t *rapid.T) Case {
 		s.K = rapid.SampledFrom([]int{1, 1, 2, 3}).Draw(t, "k")
 		s.Holder = rapid.IntRange(0, 11).Draw(t, "holder")
 		s.File = rapid.IntRange(0, 5).Draw(t, "file")
+		if s.Op == "resolve" && c.Cfg.ValidSec > 0 && sleeps < 2 && rapid.IntRange(0, 2).Draw(t, "failcheck") == 0 {
+			// a quiet second, then the cached instance fails its connectivity check exactly when it is asked for again
+			c.Steps = append(c.Steps, s, Step{Op: "pause"})
+			sleeps++
+			s = Step{Op: "resolve", Layer: s.Layer, K: 1, FailCheck: true, Holder: s.Holder}
+		}
 		c.Steps = append(c.Steps, s)
 		if s.Op == "resolve" && rapid.IntRange(0, 3).Draw(t, "refreshfirst") == 0 {
 			// the newest holder's layer is refreshed against a bad source before it has read anything
@@ -85,6 +98,7 @@ type instance struct { // model of one resolved layer object
 	holders int
 	cached  bool      // still in the resolver's cache
 	added   time.Time // when it entered the cache (expiry is added + TTL)
+	fuzzy   bool      // the model no longer knows which object is cached for this layer, nor since when
 }
 
 type holder struct {
@@ -127,8 +141,12 @@ func run(c Case, ev *pbt.Ev) error {
 	}
 	defer st.Close()
 	ttl := time.Duration(c.Cfg.TTLSec) * time.Second
+	var failNextCheck atomic.Bool
 	badMirror := memreg.New()
 	st.Reg.Decide = func(q *memreg.Req) memreg.Action {
+		if failNextCheck.Load() && q.Method == "GET" && len(q.Ranges) == 1 && q.Ranges[0] == (memreg.Range{B: 0, E: 1}) && failNextCheck.CompareAndSwap(true, false) {
+			return memreg.Action{Kind: "status", Status: 500}
+		}
 		if q.Host == "bad-mirror.example" {
 			return memreg.Action{Kind: "raw", Raw: func(req *http.Request, _ []byte) (*http.Response, error) { return badMirror.RoundTrip(req) }}
 		}
@@ -231,6 +249,7 @@ func run(c Case, ev *pbt.Ev) error {
 		expire(now)
 		switch s.Op {
 		case "resolve":
+			failNextCheck.Store(s.FailCheck)
 			ld := lds[s.Layer]
 			logFrom := st.Reg.LogLen()
 			fsBefore, httpBefore := st.CacheDirs()
@@ -242,10 +261,13 @@ func run(c Case, ev *pbt.Ev) error {
 				go func(k int) { defer wg.Done(); ls[k], errs[k] = st.Resolve(ld.desc) }(k)
 			}
 			wg.Wait()
+			if s.FailCheck && !failNextCheck.Swap(false) {
+				ev.Class("cached-layer-failed-its-check-during-resolve")
+			}
 			ok := 0
 			for k := range ls {
 				if errs[k] != nil {
-					if !down {
+					if !down && !s.FailCheck { // (the scripted error may also hit a fresh resolution's own probe)
 						return pbt.Violf("resolve-failed", "step %d: Resolve of layer %d failed with a healthy registry: %v", i, s.Layer, errs[k])
 					}
 					continue
@@ -265,6 +287,8 @@ func run(c Case, ev *pbt.Ev) error {
 			if prev != nil && prev.cached {
 				age := now.Sub(prev.added)
 				switch {
+				case prev.fuzzy || s.FailCheck:
+					sure = "either"
 				case age < ttl-200*time.Millisecond:
 					sure = "hit"
 				case age < ttl+5*time.Second:
@@ -284,6 +308,9 @@ func run(c Case, ev *pbt.Ev) error {
 			case created == 0 && prev != nil:
 				in = prev
 				in.cached = true
+				if s.FailCheck {
+					in.fuzzy = true // an unheld instance may have been replaced by a new one (one directory gone, one new)
+				}
 				cached[s.Layer] = in
 			default:
 				if prev != nil {
@@ -373,6 +400,9 @@ func run(c Case, ev *pbt.Ev) error {
 				delete(cached, h.layer)
 				ev.ClassIf(h.inst.holders > 0, "evicting-release-with-other-holders")
 			}
+		case "pause":
+			// long enough for the next connectivity check to reach the registry, too short for the TTL
+			time.Sleep(time.Duration(c.Cfg.ValidSec)*time.Second + 200*time.Millisecond)
 		case "sleep":
 			time.Sleep(ttl + 400*time.Millisecond)
 			ev.Class("ttl-expiry")
